@@ -511,3 +511,43 @@ def c18_cli(r, seed, tier, model_ok):
     p = subprocess.run([vlib.PY, "-m", "pbhhg_py.cli", "-c", "ㄴㅇㄱ ㅈㄷㅎㄴ ㅎ", "ab", "", "cde"], cwd=vlib.REPO, capture_output=True, text=True, env=dict(os.environ, PYTHONPATH=vlib.REPO)); n += 1
     if p.returncode != 0: bad.append(dict(program="python -m pbhhg_py.cli -c 'ㄴㅇㄱ ㅈㄷㅎㄴ ㅎ' ab '' cde", impl=f"exit {p.returncode} stderr={p.stderr[-200:]}", model="exit 0 (length of the second argument, the empty string)", which=["exit-status"]))
     r.slice("cli_run", n, len({p[0] + str(p[1]) for p in progs}), [progs[0][0]], dict(cnt), "cli.run in-process on generated single-expression programs x argument vectors + real processes", bad[:40])
+
+# ------------------------------------------------------------------ C02: calling values that are not functions
+def c02_callables(r, seed, tier, model_ok):
+    """calling a Boolean, list, string, byte string, exception, dictionary or complex number: EVERY index in -len-3 .. len+2 (and wrong arities /
+    argument kinds) against the documented selection / indexing rule computed independently in the harness; the modelled kinds also vs the model"""
+    R = random.Random(seed * 7919 + 0xC02 + 7); cases = []; want = []; kinds = collections.Counter()
+    def fmtb(bs): return "b'" + "".join(f"\\x{x:02X}" for x in bs) + "'"
+    def bytes_lit(bs): return f"({E(int.from_bytes(bs, 'little'))} ㄴ {E(len(bs))} ㅂ ㅂ ㅂㅎㄷ ㅎㄷ ㅎㄴ)" if bs else "(ㄱ ㄴ ㄱ ㅂ ㅂ ㅂㅎㄷ ㅎㄷ ㅎㄴ)"
+    def str_lit(s): return f"({bytes_lit(s.encode('utf-32-le'))} ㄱ ㅁ ㄱㅈㅎㄱ ㅂ ㅂ ㅂㅎㄷ ㅎㄹ ㅎㄴ)" if s else "(ㅁㅈㅎㄱ)"
+    def add(text, w, kind): cases.append(dict(text=text, trace=False)); want.append(w); kinds[kind] += 1
+    for _ in range(N(tier, 40, 400)):
+        ln = R.randrange(0, 6); xs = [R.randrange(-9, 10) for _ in range(ln)]
+        s = "".join(chr(R.choice([0x41, 0x62, 0xAC00, 0x1F600, 0x31])) for _ in range(ln)); bs = bytes(R.randrange(256) for _ in range(ln))
+        for i in range(-ln - 3, ln + 3):
+            ok = -ln <= i < ln
+            add(f"{E(i)} {call('ㅁㄹ', [E(x) for x in xs])} ㅎㄴ", f"V {xs[i]}" if ok else "E 5,-5", "list")
+            add(f"{E(i)} {call('ㄷㅂ', [E(x) for x in xs])} ㅎㄴ", f"V {xs[i]}" if ok else "E 5,-5", "exception")
+            add(f"{E(i)} {str_lit(s)} ㅎㄴ", f"V '{s[i]}'" if ok else "E 5,-5", "string")
+            add(f"{E(i)} {bytes_lit(bs)} ㅎㄴ", f"V {fmtb(bs[i:i + 1] if i >= 0 else bs[ln + i:ln + i + 1])}" if ok else "E 5,-5", "bytes")
+        ks = R.sample(range(-4, 5), R.randrange(0, 5)); vs = [R.randrange(0, 9) for _ in ks]
+        d = call("ㅅㅈ", [y for k, v in zip(ks, vs) for y in (E(k), E(v))])
+        for k in range(-5, 6): add(f"{E(k)} {d} ㅎㄴ", f"V {vs[ks.index(k)]}" if k in ks else "E 5,-60", "dictionary")
+        a, b = R.randrange(-5, 6), R.randrange(-5, 6); cx = f"({E(a)} {E(b)} ㅂㅅㅎㄷ)"
+        for i in (-1, 0, 1, 2): add(f"{E(i)} {cx} ㅎㄴ", "V " + vlib.canon_float(float(a if i == 0 else b)) if i in (0, 1) else "E 5,-39", "complex")
+        x, y = E(R.randrange(0, 9)), E(R.randrange(0, 9)); t = R.random() < .5; bl = "(ㅈㅈㅎㄱ)" if t else "(ㄱㅈㅎㄱ)"
+        add(f"{x} {y} {bl} ㅎㄷ", f"V {G_dec(x) if t else G_dec(y)}", "boolean")
+        add(f"{x} {bl} ㅎㄴ", "E 5,-39", "boolean-arity"); add(f"{x} {y} {x} {bl} ㅎㄹ", "E 5,-39", "boolean-arity")
+        for callee in (call("ㅁㄹ", [E(1), E(2)]), str_lit("ab"), cx):
+            add(f"(ㄴ ㅁㅈㅎㄴ) {callee} ㅎㄴ", "E 5,0", "index-not-integer"); add(f"ㄱ ㄴ {callee} ㅎㄷ", "E 5,-39", "index-arity")
+    a = impl_run(cases)
+    bad = [dict(program=c["text"], impl=res(o)[:120], model="documented rule: " + w, which=["call-rule"]) for c, o, w in zip(cases, a, want)
+           if not (res(o) == w or (w.startswith("E ") and res(o).split(" @")[0] == w))]
+    r.slice("calling_non_functions", len(cases), len({c["text"] for c in cases}), [cases[0]["text"], cases[-1]["text"]], dict(kinds),
+            "Boolean / list / string / bytes / exception / dictionary / complex called with every index in -len-3..len+2, wrong arities and argument kinds, vs the documented rule", bad[:40])
+    if model_ok:
+        mc = [c for c in cases if "ㅂㅅㅎㄷ" not in c["text"]]; ma = [o for c, o in zip(cases, a) if "ㅂㅅㅎㄷ" not in c["text"]]
+        b = model_run(mc); dist, bad2 = compare(mc, ma, b, fields=("res",))
+        r.slice("calling_non_functions_vs_model", len(mc), len({c["text"] for c in mc}), [mc[1]["text"]], dict(outcomes=dict(dist)), "the same calls (complex numbers excepted: not modelled) vs the model", bad2)
+def G_dec(w):
+    T = "ㄱㄴㄷㄹㅁㅂㅅㅈ"; v = sum(T.index(c) * 8 ** i for i, c in enumerate(w)); return -v if len(w) % 2 == 0 else v
